@@ -7,3 +7,5 @@ import Lace.Props.C15
 #print axioms Lace.C15.refused_noop
 #print axioms Lace.C15.eval_refusals_noop
 #print axioms Lace.C15.eval_never_ends_session_partial
+#print axioms Lace.C15.eval_pc_only_jumps_holds
+#print axioms Lace.C15.eval_never_ends_session_holds
